@@ -293,6 +293,10 @@ class MQTTProtocol(MQTTBaseProtocol):
         except KeyError as e:
             log.debug("<== {packet:7} (id={response.msgId:04x}) already handled", packet="PUBACK", response=response)
         else:
+            if request.qos != 1:
+                # a QoS 2 exchange is only completed by PUBREC + PUBCOMP
+                log.debug("<== {packet:7} (id={response.msgId:04x}) ignored, message has QoS {qos}", packet="PUBACK", response=response, qos=request.qos)
+                return
             log.debug("<== {packet:7} (id={response.msgId:04x})", packet="PUBACK", response=response)
             request.alarm.cancel()
             request.deferred.callback(request.msgId)
@@ -311,6 +315,10 @@ class MQTTProtocol(MQTTBaseProtocol):
         except KeyError as e:
             log.debug("<== {packet:7} (id={response.msgId:04x}) already handled", packet="PUBREC", response=response)
         else:
+            if request.qos != 2:
+                # a QoS 1 message is only acknowledged by PUBACK
+                log.debug("<== {packet:7} (id={response.msgId:04x}) ignored, message has QoS {qos}", packet="PUBREC", response=response, qos=request.qos)
+                return
             log.debug("<== {packet:7} (id={response.msgId:04x})", packet="PUBREC", response=response)
             request.alarm.cancel()
             del self.factory.windowPublish[self.addr][response.msgId]
